@@ -105,6 +105,9 @@ Fixpoint redirect_loop (n : nat) (o : hsopts) (resp : hs_result) (x : xport) (st
       match alist_get S_LOCATION hs with
       | Some (c :: r) =>
         let url := c :: r in
+        match parse_url url with
+        | Raise _ => (Raise WsGeneric, Some x, st)                 (* "Invalid redirect location": checked before the old socket is closed *)
+        | Ok _ =>
         let xc := close_x x in                                    (* self.sock.close() *)
         match open_conn url None st with
         | (Raise e, st1) => (Raise e, Some xc, st1)                (* self.sock is still the closed socket *)
@@ -116,6 +119,7 @@ Fixpoint redirect_loop (n : nat) (o : hsopts) (resp : hs_result) (x : xport) (st
           | (Raise e, x3, st3) => (Raise e, Some x3, st3)
           | (Ok resp', x3, st3) => redirect_loop k o resp' x3 st3
           end
+        end
         end
       | _ => (Raise WsGeneric, Some x, st)                         (* redirect without Location *)
       end
